@@ -74,8 +74,8 @@ theorem qClose_queues (a : ActId) (fs : List (Frame Rat)) (q : Name) :
   simp only [execStmt]; rw [doPostpone_q]
   cases h : (w.queues.getD q default).closed
   · simp only [Bool.not_false, if_true, Bool.false_eq_true, if_false]
-    rw [awakeAll_q]
-  · simp only [Bool.not_true, Bool.false_eq_true, if_false, if_true]
+    rw [awakeAll_q]; rfl
+  · simp only [Bool.not_true, Bool.false_eq_true, if_false, if_true]; rfl
 
 theorem qGetPop_eq (a : ActId) (fs : List (Frame Rat)) (v : Val) (q : Name) (x : Int) (rest : List Int)
     (h : (w.queues.getD q default).buffer = x :: rest) :
